@@ -208,12 +208,13 @@ Proof.
 Qed.
 
 (* ------------------------------------------------------------------ *)
-Lemma tab_loop_sim t : forall fuel b2 b1 pos one,
-  Rel b2 b1 -> simr Rel (tab_loop fuel b2 t pos one) (tab_loop fuel b1 t pos one).
+Lemma tab_loop_sim : forall fuel b2 b1 t tw pos one fl,
+  Rel b2 b1 ->
+  simr (@Rel2 bool) (tab_loop fuel b2 t tw pos one fl) (tab_loop fuel b1 t tw pos one fl).
 Proof.
-  induction fuel as [|f IH]; intros b2 b1 pos one (tp & -> & HR); cbn [tab_loop]; prj2;
-    (destruct (negb (pos mod 8 =? 0) || negb one); [|apply simr_ok; rel]); [exact I|].
-  destruct (wwidth b1 =? 0); [apply simr_ok; rel|].
+  induction fuel as [|f IH]; intros b2 b1 t tw pos one fl (tp & -> & HR); cbn [tab_loop]; prj2;
+    (destruct (negb (pos mod 8 =? 0) || negb one); [|apply simr_ok; rel2]); [exact I|].
+  destruct (wwidth b1 =? 0); [apply simr_ok; rel2|].
   destruct (wwidth b1 <=? pos).
   - eapply simr_bind with (Q := Rel); [apply flush_line_sim; rel|].
     intros b2' b1' HR'. apply IH, HR'.
@@ -234,8 +235,9 @@ Proof.
       * eapply simr_bind with (Q := Rel); [apply ffl_sim; rel|].
         intros b2' b1' (tp' & -> & HR'). apply simr_ok. prj2. rel2.
       * destruct (cp c =? 9).
-        -- eapply simr_bind with (Q := Rel); [apply tab_loop_sim; rel|].
-           intros b2' b1' HR'. apply simr_ok. split; [exact HR'|reflexivity].
+        -- eapply simr_bind with (Q := @Rel2 bool); [apply tab_loop_sim; rel|].
+           intros [b2' f2] [b1' f1] [(tp' & E & HR') Ef]. cbn [fst snd] in *. subst b2' f2.
+           destruct (is_pre m && f1); apply simr_ok; prj2; rel2.
         -- destruct (cw c) as [cwidth|]; [|apply simr_ok; rel2].
            destruct (wwidth b1 <? tlen_ (wline b1) + wslen b1 + cwidth).
            ++ eapply simr_bind with (Q := Rel); [apply flush_line_sim; rel|].
